@@ -150,10 +150,9 @@ def fill_threshold(F, S):
     dc = F.fn(HL + "::DecompressCode", nparams=0)
     # the match length is the code minus a constant (`code -= 253`, or `code - 253` handed to a copy helper)
     base = None
-    codes = {dc.term(dc.kids(nd["id"])[0]) for nd in dc.nodes if nd["k"] == "BinaryOperator" and nd.get("op") == "="
-             and dc.term(dc.kids(nd["id"])[1])[0] == "call" and dc.term(dc.kids(nd["id"])[1])[1].endswith("GetNextCode")}
-    codes |= {("var", d["n"], d["d"]) for nd in dc.nodes if nd["k"] == "DeclStmt" for d in nd.get("decls", [])
-              if "init" in d and dc.term(d["init"])[0] == "call" and dc.term(d["init"])[1].endswith("GetNextCode")}
+    # the decoded code is what the tree is updated with
+    codes = {dc.term(nd["args"][0]) for nd in dc.nodes if nd["k"] == "CXXMemberCallExpr" and nd.get("fname") == "UpdateCodeCount" and nd.get("args")}
+    codes = {c for c in codes if c[0] == "var"}
     for nd in dc.nodes:
         if (nd["k"] == "CompoundAssignOperator" and nd.get("op") == "-=") or (nd["k"] == "BinaryOperator" and nd.get("op") == "-"):
             ks = dc.kids(nd["id"])
